@@ -162,4 +162,16 @@ CHECKS["C15"] = {
     "note": TB,
     "technique": "TLC-enumerated unsupported-construct placements + translation validation of whatever is accepted",
 }
+CHECKS["C17"] = {
+    "category": "model_checking",
+    "engine": "tlc-mc",
+    "text": "Grammar.tla defines C's precedence/associativity table with a minimal-parenthesis unparser and a precedence-climbing parser and TLC "
+            "checks their bijection on the generated set (all 18x18 ordered operator pairs in both nestings, unary x binary, cast/unary/postfix, ?: "
+            "and assignment nestings, if/else nestings incl. dangling else); the texts (plus blank variants around & / &&, 140 operand-like "
+            "identifiers, statement-expression forms and corpus behaviours) are parsed by the real Lark parser, the trees are projected rule-by-rule "
+            "and TLC compares them with the generating trees / the independent parser's trees; repeated under other hash seeds with fresh and "
+            "reused parser objects in shuffled order",
+    "note": "trusted base: TLC, Grammar.tla, the Lark-tree projection (rule name -> constructor) and the independent recursive-descent parser",
+    "technique": "TLC-checked unparse/parse bijection + call-trace validation of the real parser",
+}
 NOT_YET = {}
